@@ -156,6 +156,30 @@ def process {β : Type} (F : Nat → List β → β) (g : PG) (p : Proc) (buf : 
            buf := (s.out.foldl (invokeM F g) ⟨buf⟩).get }
   else none
 
+/-- a `process` call that UNWINDS: the user node `k` panics inside `Node::process` (after its inputs
+    were collected, before it writes its buffers) and the caller catches the unwind and keeps the
+    processor.  The nodes before `k` in the traversal order ran normally, `k` was invoked (it is in the
+    log) and its buffers are unchanged.  If `k` is not invoked by this call, the call is an ordinary one.
+    The state the processor is left in is NOT modelled in detail (the traversal was abandoned half-way;
+    both visit maps were sized by `reset`, so they have equal lengths): `Props/C09` proves that every
+    later call is independent of it (`process_independent_of_processor`), so any state with equal-length
+    visit maps may stand for it; the completed traversal's is used.  `processor.inputs` needs no
+    modelling: it is cleared before the inputs of every node are collected (lib.rs:324). -/
+def processAbort {β : Type} (F : Nat → List β → β) (g : PG) (p : Proc) (buf : Nat → β) (root k : Nat) :
+    Option (Result β × Bool) :=
+  if root < g.bound && g.live root then
+    let s := run ⟨g.inc⟩ (resetMoveTo g p root)
+    let pre := s.out.takeWhile (fun n => n != k)
+    if pre.length < s.out.length then
+      some ({ proc := ⟨s.stack, s.disc, s.fin⟩
+              log := (pre ++ [k]).map (fun n => (n, inputsOf g n))
+              buf := (pre.foldl (invokeM F g) ⟨buf⟩).get }, true)
+    else
+      some ({ proc := ⟨s.stack, s.disc, s.fin⟩
+              log := s.out.map (fun n => (n, inputsOf g n))
+              buf := (s.out.foldl (invokeM F g) ⟨buf⟩).get }, false)
+  else none
+
 /-! ### `sources` / `sinks` (lib.rs:352-376) -/
 
 /-- `node_identifiers()`: `0..node_count` for `Graph`, the occupied slots in index order for `StableGraph` -/
